@@ -94,6 +94,40 @@ int main(int argc, char** argv) {
             axis_ok = std::abs(std::abs(comp[la]) - 1.) < 1e-6 && std::abs(ax.norm() - 1.) < 1e-9;
         }
         o.key("axis_ok").b(axis_ok);
+        // the same quantities after the lists got unused slots before live elements (what edge collapses leave behind), and after
+        // the compaction that removes them: they are functions of the surface, not of how it is stored
+        bool hist_ok = true;
+        if (err.empty()) {
+            const double v0 = c->compute_volume(), a0 = c->compute_area();
+            const vec3 c0 = c->compute_centroid();
+            auto bb0 = c->get_aabb();
+            // s = 1: same place; s = 2: every node moved by the exact map p -> 2 * (p.y, p.z, p.x) (volume x8, area x4, normals rotated)
+            auto same = [&](cell& x, double sc) {
+                x.update_all_face_normals_and_areas();
+                cell_tester::area(x) = x.compute_area(); cell_tester::volume(x) = x.compute_volume();     // compute_centroid divides by the cached area
+                vec3 c1 = x.compute_centroid();
+                auto bb1 = x.get_aabb();
+                const double v1 = x.compute_volume(), a1 = x.compute_area();
+                const vec3 want = sc == 1. ? c0 : vec3(c0.dy(), c0.dz(), c0.dx()) * 2.;
+                bool ok = std::abs(v1 - sc * sc * sc * v0) <= 1e-12 * v1 && std::abs(a1 - sc * sc * a0) <= 1e-12 * a1 && (c1 - want).norm() <= 1e-9 * std::cbrt(v1);
+                if (getenv("GDBG")) fprintf(stderr, "sc %g v1 %.17g want %.17g a1 %.17g want %.17g cen %g\n", sc, v1, sc * sc * sc * v0, a1, sc * sc * a0, (c1 - want).norm());
+                if (sc == 1.) { for (size_t q = 0; q < bb0.size(); q++) if (bb0[q] != bb1[q]) ok = false; }
+                for (auto& f : cell_tester::faces(x)) if (f.is_used()) {
+                    auto t = cell_tester::tri(f); auto& NN = cell_tester::nodes(x);
+                    const vec3 w = (NN[t[1]].pos() - NN[t[0]].pos()).cross(NN[t[2]].pos() - NN[t[0]].pos());
+                    if (!(w.dot(f.get_normal()) > 0.999 * w.norm()) || std::abs(f.get_normal().norm() - 1.) > 1e-9) ok = false;
+                    if (std::abs(f.get_area() - 0.5 * w.norm()) > 1e-12 * w.norm()) ok = false;
+                }
+                return ok;
+            };
+            cell_tester::fragment(*c, 1 + (unsigned)(C["k"].i() % 4), C["k"].i() % 2 == 0);
+            if (!same(*c, 1.)) { hist_ok = false; if (getenv("GDBG")) fprintf(stderr, "fail A\n"); }
+            for (auto& n : cell_tester::nodes(*c)) if (n.is_used()) { const vec3 q = n.pos(); cell_tester::pos(n) = vec3(q.dy(), q.dz(), q.dx()) * 2.; }
+            if (!same(*c, 2.)) hist_ok = false;
+            try { c->rebase(); } catch (std::exception&) { hist_ok = false; }
+            if (!same(*c, 2.)) hist_ok = false;
+        }
+        o.key("hist_ok").b(hist_ok);
         o.end_obj();
         fprintf(fo, "%s\n", o.text().c_str());
     }
